@@ -65,6 +65,8 @@ class Params:
         self.const_bias = 0.0       # bias toward constant sub-expressions
         self.nonascii = False       # non-ASCII characters in string literals
         self.error_rate = 0.15      # how often error-prone shapes are kept
+        self.call_bias = 0.0        # extra probability of a procedure call
+        self.min_procs = 0
         for k, v in kw.items():
             if k == 'features':
                 self.features.update(v)
@@ -814,6 +816,11 @@ class Gen:
     def statement(self, depth):
         """Returns a list of statements (some patterns need several)."""
         self.stmt_budget -= 1
+        if self.p.call_bias and self.feat('procs') and \
+                self.chance(self.p.call_bias):
+            s = self.call_sub(depth)
+            if s is not None:
+                return [s]
         r = self.i(0, 29)
         if r <= 6:
             return [self.assign()]
@@ -1405,7 +1412,7 @@ class Gen:
         return out
 
     def make_sigs(self):
-        n = self.i(0, self.p.max_procs)
+        n = self.i(self.p.min_procs, self.p.max_procs)
         for k in range(n):
             kind = self.pick(['sub', 'function'])
             base = self.fresh_base()
